@@ -36,7 +36,9 @@ def harnesses(tier, findings):
     if tier == "probe":
         return [sched(1, 2, 3, timeout=900), sched(2, 2, 2, timeout=900), sched(1, 2, 2, timeout=900, solver="cadical")]
     if tier == "quick":
-        return [sched(1, 2, 4), sched(2, 2, 3), kern(2, 0), kern(2, 1)]
+        return [kern(2, 0), kern(2, 1), kern(2, 3)]
+    if tier == "sched":
+        return [sched(1, 2, 4), sched(2, 2, 3)]
     return [sched(1, 2, 5, timeout=3000), sched(1, 3, 4, timeout=3000), sched(2, 2, 4, timeout=3000), sched(2, 3, 4, timeout=3000)] + \
            [kern(k, ty, timeout=3000) for k in (2, 3) for ty in (0, 1, 2, 3, 5, 6, 7)] + [kern(2, 1, npx=2, timeout=3000)]
 
